@@ -46,10 +46,43 @@ LAYOUTS = {
     "across": [(F(0), 0, None), (F(7), 1, F(5, 2)), (F(13), 2, None)],
     "chord": [(F(2), 0, None), (F(2), -1, None), (F(2), 1, None), (F(17, 4), 2, None)],
     "allcols": "all",
+    # only the two lowest columns in use: the key count must come from what the source declares, not from the columns in use
+    "lowcols": [(F(1), 0, None), (F(2), 1, F(1, 2))],
 }
 
 
-def abstract_charts():
+ATOM_BEATS = [F(0), F(1, 2), F(1), F(3), F(8), F(19, 2)]
+ATOM_COLS = [0, 1, -1]
+ATOM_KINDS = [None, F(1, 2), F(6)]
+_CHARTS = {}
+
+
+def abstract_charts(tier="thorough"):
+    """quick: the hand-picked layouts; thorough: those, then every chart of one or two notes over the atom alphabet
+    (6 beats x 3 columns x hit/short hold/hold across tempo changes), for 4 and 7 keys, both first-tempo times, 3 tempo lists.
+    The quick list is a prefix of the thorough one, so a chart index means the same in both."""
+    if tier not in _CHARTS:
+        out = _picked_charts()
+        if tier == "thorough":
+            atoms = [(b, c, l) for b in ATOM_BEATS for c in ATOM_COLS for l in ATOM_KINDS]
+            sets = [(a,) for a in atoms]
+            for x, y in itertools.combinations(atoms, 2):
+                if x[1] == y[1]:
+                    (b1, _, l1), (b2, _, l2) = sorted([x, y], key=lambda n: n[0])
+                    if b1 + (l1 or 0) >= b2:
+                        continue  # two objects of one column may not touch
+                sets.append((x, y))
+            for keys in (4, 7):
+                for t0 in (0, 341):
+                    for bn, bl in BPM_LISTS.items():
+                        for k, ns in enumerate(sets):
+                            notes = [(b, c if c >= 0 else keys - 1, l) for b, c, l in ns]
+                            out.append(dict(keys=keys, t0=t0, bpms=bl, notes=notes, name=f"{keys}k/t0={t0}/{bn}/set{k}"))
+        _CHARTS[tier] = out
+    return _CHARTS[tier]
+
+
+def _picked_charts():
     out = []
     for keys in (4, 7, 6, 8):
         for t0 in (0, 341):
@@ -275,19 +308,23 @@ def converters(game):
 
 
 def bound(tier, seed):
-    cs = abstract_charts()
-    return dict(abstract_charts=len(cs), triples=sum(len(converters(g)) for c in cs for g in sources_for(c)), key_counts=[4, 7, 6, 8], first_tempo_points=[0, 341], tempo_lists=list(BPM_LISTS), note_layouts=list(LAYOUTS))
+    cs = abstract_charts(tier)
+    return dict(abstract_charts=len(cs), triples=sum(len(converters(g)) for c in cs for g in sources_for(c)), key_counts=[4, 7, 6, 8], first_tempo_points=[0, 341], tempo_lists=list(BPM_LISTS), note_layouts=list(LAYOUTS),
+                combinatorial=None if tier == "quick" else dict(notes_per_chart="1..2", beats=[str(b) for b in ATOM_BEATS], columns=["0", "1", "last"], kinds=["hit", "hold 1/2 beat", "hold 6 beats"], keys=[4, 7]))
 
 
 def roots(tier, seed):
-    return [dict(i=i) for i in range(len(abstract_charts()))]
+    n = len(abstract_charts(tier))
+    chunk = 2 if tier == "quick" else 24
+    return [dict(start=a, stop=min(n, a + chunk)) for a in range(0, n, chunk)]
 
 
 def explore(root, tier, ctx):
-    ch = abstract_charts()[root["i"]]
-    for g in sources_for(ch):
-        for name, fn, tg, shift in converters(g):
-            check(root["i"], g, name, ctx)
+    cs = abstract_charts(tier)
+    for i in range(root["start"], root["stop"]):
+        for g in sources_for(cs[i]):
+            for name, fn, tg, shift in converters(g):
+                check(i, g, name, ctx)
 
 
 def replay(case, ctx):
